@@ -6,7 +6,25 @@ EXTENDS Annotate, Json, IOUtils, SequencesExt
 
 \* ---- annotation records -----------------------------------------------------------------------
 Upd(f, vals) == {[EmptyAnn EXCEPT ![f] = x] : x \in vals}
-Merge(a, b)  == [f \in DOMAIN EmptyAnn |-> IF a[f] # EmptyAnn[f] THEN a[f] ELSE b[f]]
+\* (an explicit record constructor: [f \in DOMAIN EmptyAnn |-> ...] would stay an unevaluated function in TLC and be
+\* re-evaluated at every field access of every case)
+Merge(a, b)  == [transfer |-> IF a.transfer # EmptyAnn.transfer THEN a.transfer ELSE b.transfer,
+                 dir |-> IF a.dir # EmptyAnn.dir THEN a.dir ELSE b.dir,
+                 nullable |-> IF a.nullable # EmptyAnn.nullable THEN a.nullable ELSE b.nullable,
+                 optional |-> IF a.optional # EmptyAnn.optional THEN a.optional ELSE b.optional,
+                 allownone |-> IF a.allownone # EmptyAnn.allownone THEN a.allownone ELSE b.allownone,
+                 notn |-> IF a.notn # EmptyAnn.notn THEN a.notn ELSE b.notn,
+                 skip |-> IF a.skip # EmptyAnn.skip THEN a.skip ELSE b.skip,
+                 array |-> IF a.array # EmptyAnn.array THEN a.array ELSE b.array,
+                 alen |-> IF a.alen # EmptyAnn.alen THEN a.alen ELSE b.alen,
+                 afixed |-> IF a.afixed # EmptyAnn.afixed THEN a.afixed ELSE b.afixed,
+                 azt |-> IF a.azt # EmptyAnn.azt THEN a.azt ELSE b.azt,
+                 et |-> IF a.et # EmptyAnn.et THEN a.et ELSE b.et,
+                 type |-> IF a.type # EmptyAnn.type THEN a.type ELSE b.type,
+                 scope |-> IF a.scope # EmptyAnn.scope THEN a.scope ELSE b.scope,
+                 closure |-> IF a.closure # EmptyAnn.closure THEN a.closure ELSE b.closure,
+                 destroy |-> IF a.destroy # EmptyAnn.destroy THEN a.destroy ELSE b.destroy,
+                 attrs |-> IF a.attrs # EmptyAnn.attrs THEN a.attrs ELSE b.attrs]
 
 TransferItems == Upd("transfer", {"none", "container", "full", "floating"})
 DirItems      == Upd("dir", {"in", "out", "inout", "outcaller", "outcallee"})
@@ -84,16 +102,38 @@ LenAnns == {EmptyAnn} \cup Upd("dir", {"out", "inout", "outcaller"}) \cup Upd("o
            \cup Upd("nullable", {TRUE})
 Kinds3 == {"function", "method", "callback"}
 WithAnn(v, a) == [v EXCEPT !.ann = a]
-S_LenParam(u) ==
-  {[kind |-> k, throws |-> th, ret |-> VoidRet, params |-> <<WithAnn(arr, aa), WithAnn(len, la)>>] :
-     k \in Kinds3, th \in BOOLEAN, arr \in ArrDecls, len \in LenDecls, aa \in ArrAnns(2), la \in LenAnns}
-  \cup
-  {[kind |-> k, throws |-> th, ret |-> VoidRet, params |-> <<WithAnn(len, la), Plain("int", 0), WithAnn(arr, aa)>>] :
-     k \in Kinds3, th \in BOOLEAN, arr \in ArrDecls, len \in LenDecls, aa \in ArrAnns(1), la \in LenAnns}
-S_LenRet(u) ==
-  {[kind |-> k, throws |-> th, ret |-> WithAnn(arr, aa), params |-> <<Plain("int", 0), WithAnn(len, la)>>] :
-     k \in Kinds3, th \in BOOLEAN, arr \in ArrDecls \ {Plain("gpointer", 0)}, len \in LenDecls,
-     aa \in {x \in ArrAnns(2) : x.dir = ""}, la \in LenAnns}
+\* ---- grids ---------------------------------------------------------------------------------------------------
+\* The relational spaces are images of grids of small index ranges.  The thorough tier takes every grid point (m = 1);
+\* the quick tier keeps the points of a lattice (an odd-weighted sum of the coordinates = -Seed mod m), so every value
+\* of every dimension keeps occurring and the sample rotates with the seed.  (Sampling a materialised set by position
+\* is not an option: outside actions TLC re-evaluates LET definitions at every use.)
+Env(k, d) == IF k \in DOMAIN IOEnv THEN IOEnv[k] ELSE d
+Seed      == atoi(Env("C01_SEED", "0"))
+Grid(n1, n2, n3, n4, n5, n6, n7) == (1..n1) \X (1..n2) \X (1..n3) \X (1..n4) \X (1..n5) \X (1..n6) \X (1..n7)
+OnLattice(t, m) == m <= 1 \/ (t[1] + 3 * t[2] + 5 * t[3] + 7 * t[4] + 9 * t[5] + 11 * t[6] + 13 * t[7] + Seed) % m = 0
+Points(g, m) == {t \in g : OnLattice(t, m)}
+
+KindsQ    == SetToSeq(Kinds3)
+BoolQ     == <<FALSE, TRUE>>
+ArrDeclsQ == SetToSeq(ArrDecls)
+LenDeclsQ == SetToSeq(LenDecls)
+LenAnnsQ  == SetToSeq(LenAnns)
+ArrAnnsQ(k)  == SetToSeq(ArrAnns(k))
+ArrAnnsRetQ  == SetToSeq({x \in ArrAnns(2) : x.dir = ""})
+ArrDeclsRetQ == SetToSeq(ArrDecls \ {Plain("gpointer", 0)})
+
+\* t = <<layout, kind, throws, array declaration, length declaration, array annotations, length annotations>>
+LenParamCase(t) ==
+  IF t[1] = 1
+  THEN [kind |-> KindsQ[t[2]], throws |-> BoolQ[t[3]], ret |-> VoidRet,
+        params |-> <<WithAnn(ArrDeclsQ[t[4]], ArrAnnsQ(2)[t[6]]), WithAnn(LenDeclsQ[t[5]], LenAnnsQ[t[7]])>>]
+  ELSE [kind |-> KindsQ[t[2]], throws |-> BoolQ[t[3]], ret |-> VoidRet,
+        params |-> <<WithAnn(LenDeclsQ[t[5]], LenAnnsQ[t[7]]), Plain("int", 0), WithAnn(ArrDeclsQ[t[4]], ArrAnnsQ(1)[t[6]])>>]
+S_LenParam(m) == {LenParamCase(t) : t \in Points(Grid(2, Len(KindsQ), 2, Len(ArrDeclsQ), Len(LenDeclsQ), Len(ArrAnnsQ(2)), Len(LenAnnsQ)), m)}
+LenRetCase(t) ==
+  [kind |-> KindsQ[t[2]], throws |-> BoolQ[t[3]], ret |-> WithAnn(ArrDeclsRetQ[t[4]], ArrAnnsRetQ[t[6]]),
+   params |-> <<Plain("int", 0), WithAnn(LenDeclsQ[t[5]], LenAnnsQ[t[7]])>>]
+S_LenRet(m) == {LenRetCase(t) : t \in Points(Grid(1, Len(KindsQ), 2, Len(ArrDeclsRetQ), Len(LenDeclsQ), Len(ArrAnnsRetQ), Len(LenAnnsQ)), m)}
 
 \* scope / closure / destroy: a callback-ish parameter, a user-data candidate, a notifier candidate, in either order,
 \* with the naming convention (…data) and GDestroyNotify typing that the pairing pass looks for
@@ -102,12 +142,21 @@ DataDecls == {Plain("gpointer", 0), [Plain("gpointer", 0) EXCEPT !.ud = TRUE], P
 NotifyDecls == {Plain("destroyNotify", 0), Plain("callbackT", 0), Plain("int", 0), [Plain("gpointer", 0) EXCEPT !.ud = TRUE]}
 CbAnns(kc, kd) == {Merge(Merge(s, c), Merge(d, t)) : s \in Upd("scope", {"", "call", "notified"}), c \in Upd("closure", {-1, 0, kc}),
                                                     d \in Upd("destroy", {0, kd}), t \in Upd("transfer", {"", "full"})}
-S_Callbacks(u) ==
-  {[kind |-> k, throws |-> FALSE, ret |-> VoidRet, params |-> <<WithAnn(cb, ca), dt, nt>>] :
-     k \in Kinds3, cb \in CbDecls, dt \in DataDecls, nt \in NotifyDecls, ca \in CbAnns(2, 3)}
-  \cup
-  {[kind |-> k, throws |-> TRUE, ret |-> VoidRet, params |-> <<dt, nt, WithAnn(cb, ca), [Plain("gpointer", 0) EXCEPT !.ud = TRUE]>>] :
-     k \in {"function", "method"}, cb \in CbDecls, dt \in DataDecls, nt \in NotifyDecls, ca \in CbAnns(1, 2)}
+CbDeclsQ     == SetToSeq(CbDecls)
+DataDeclsQ   == SetToSeq(DataDecls)
+NotifyDeclsQ == SetToSeq(NotifyDecls)
+CbAnnsQ(kc, kd) == SetToSeq(CbAnns(kc, kd))
+UserData     == [Plain("gpointer", 0) EXCEPT !.ud = TRUE]
+\* t = <<layout, kind, callback declaration, data declaration, notifier declaration, callback annotations, 1>>
+CallbacksCase(t) ==
+  IF t[1] = 1
+  THEN [kind |-> KindsQ[t[2]], throws |-> FALSE, ret |-> VoidRet,
+        params |-> <<WithAnn(CbDeclsQ[t[3]], CbAnnsQ(2, 3)[t[6]]), DataDeclsQ[t[4]], NotifyDeclsQ[t[5]]>>]
+  ELSE [kind |-> KindsQ[t[2]], throws |-> TRUE, ret |-> VoidRet,
+        params |-> <<DataDeclsQ[t[4]], NotifyDeclsQ[t[5]], WithAnn(CbDeclsQ[t[3]], CbAnnsQ(1, 2)[t[6]]), UserData>>]
+S_Callbacks(m) ==
+  {CallbacksCase(t) : t \in {p \in Points(Grid(2, Len(KindsQ), Len(CbDeclsQ), Len(DataDeclsQ), Len(NotifyDeclsQ), Len(CbAnnsQ(2, 3)), 1), m) :
+                               p[1] = 1 \/ KindsQ[p[2]] # "callback"}}
 \* (closure) / scope / destroy written on the user-data or notifier parameter itself
 S_OnData(u) ==
   {[kind |-> k, throws |-> FALSE, ret |-> VoidRet, params |-> <<Plain("callbackT", 0), WithAnn(dt, a), Plain("destroyNotify", 0)>>] :
@@ -116,36 +165,53 @@ S_OnData(u) ==
 \* ---- quick tier: one case per (declaration kind, direction, annotation) triple -----------------------------
 \* the variant (pointer depth, const, position: parameter of a function / method / callback type, or return value)
 \* rotates with the seed
-Env(k, d) == IF k \in DOMAIN IOEnv THEN IOEnv[k] ELSE d
-Seed      == atoi(Env("C01_SEED", "0"))
-SampleMod == atoi(Env("C01_MOD", "1"))
 Positions == {"function", "method", "callback", "ret"}
 Variants(ck) == SetToSeq({<<pos, s>> : pos \in Positions, s \in Decls({ck})})
-S_Strat(u) ==
-  LET anns == SetToSeq(AnnsDir_(0))
-  IN {LET vs == Variants(ck)
-          p  == vs[((j + Seed) % Len(vs)) + 1]
-      IN IF p[1] = "ret" THEN RetCase(p[2], anns[j]) ELSE ParamCase(p[1], p[2], anns[j]) : ck \in AllKinds, j \in 1..Len(anns)}
+\* (operator arguments are evaluated once and kept; LET definitions would be re-evaluated at every use)
+StratCase(p, a)   == IF p[1] = "ret" THEN RetCase(p[2], a) ELSE ParamCase(p[1], p[2], a)
+StratPick(vs, j)  == vs[((j + Seed) % Len(vs)) + 1]
+StratOf(anns)     == {StratCase(StratPick(Variants(ck), j), anns[j]) : ck \in AllKinds, j \in 1..Len(anns)}
+S_Strat(u)        == StratOf(SetToSeq(AnnsDir_(0)))
 
-\* TLC evaluates every zero-arity constant definition at start-up: the case spaces are therefore operators
-\* (dummy argument) and the configuration selects one of them through the constant Which
+\* TLC evaluates every zero-arity constant-level definition at start-up, once PER WORKER: the case spaces are
+\* therefore operators (dummy argument), the configuration selects one through the constant Which, and the model
+\* starts from MCInit (evaluated once) instead of Annotate!Init over a constant set
 CONSTANT Which
-FullSet == CASE Which = "single" -> S_Single(0)
-             [] Which = "strat" -> S_Strat(0)
-             [] Which = "pairsparam" -> S_PairsParam(0)
-             [] Which = "pairsret" -> S_PairsRet(0)
-             [] Which = "null3" -> S_Null3(0)
-             [] Which = "cont3" -> S_Cont3(0)
-             [] Which = "lenparam" -> S_LenParam(0)
-             [] Which = "lenret" -> S_LenRet(0)
-             [] Which = "callbacks" -> S_Callbacks(0)
-             [] Which = "ondata" -> S_OnData(0)
-             [] OTHER -> {}
-\* C01_MOD=m keeps every m-th case (rotating with the seed): the quick tier model-checks and replays a sample of
-\* the large spaces, the thorough tier all of them
-MC_Cases == IF SampleMod <= 1 THEN FullSet
-            ELSE LET q == SetToSeq(FullSet) IN {q[j] : j \in {x \in 1..Len(q) : (x + Seed) % SampleMod = 0}}
+\* one canonical case per deviation class of Annotate.tla PART 3b (the reproducers of the repaired defects)
+WAnn(f, x) == [EmptyAnn EXCEPT ![f] = x]
+S_Witness(u) ==
+  {ParamCase("function", [ck |-> "char", ptr |-> 2, const |-> FALSE], Merge(WAnn("dir", "out"), Merge(WAnn("nullable", TRUE), WAnn("notn", "optional")))),
+   ParamCase("function", [ck |-> "char", ptr |-> 2, const |-> FALSE], Merge(WAnn("dir", "out"), Merge(WAnn("optional", TRUE), WAnn("notn", "optional")))),
+   ParamCase("function", [ck |-> "aliasT", ptr |-> 1, const |-> FALSE], Merge(WAnn("nullable", TRUE), WAnn("transfer", "full"))),
+   RetCase([ck |-> "aliasT", ptr |-> 1, const |-> FALSE], WAnn("nullable", TRUE)),
+   ParamCase("function", [ck |-> "enumT", ptr |-> 0, const |-> FALSE], WAnn("nullable", TRUE)),
+   ParamCase("method", [ck |-> "flagsT", ptr |-> 0, const |-> FALSE], WAnn("allownone", TRUE)),
+   [kind |-> "function", throws |-> FALSE, ret |-> VoidRet,
+    params |-> <<WithAnn(Plain("callbackT", 0), WAnn("closure", 2)), UserData, UserData>>],
+   [kind |-> "method", throws |-> TRUE, ret |-> VoidRet,
+    params |-> <<WithAnn(Plain("callbackT", 0), WAnn("destroy", 3)), UserData, Plain("destroyNotify", 0), Plain("destroyNotify", 0)>>],
+   [kind |-> "function", throws |-> FALSE, ret |-> VoidRet, params |-> <<WithAnn(Plain("callbackT", 0), WAnn("closure", 2)), Plain("int", 0)>>],
+   [kind |-> "callback", throws |-> FALSE, ret |-> VoidRet, params |-> <<WithAnn(Plain("int", 0), WAnn("closure", 0))>>]}
 
-\* A.4: the harness replays exactly the cases TLC counted
-ASSUME ("C01_CASES_FILE" \notin DOMAIN IOEnv) \/ ndJsonSerialize(IOEnv.C01_CASES_FILE, SetToSeq(MC_Cases))
+\* "quick": the stratified single-value space, the whole on-data space, lattice samples of the grid-shaped spaces
+\* and the canonical witnesses
+CasesOf(u) == CASE Which = "quick" -> S_Strat(0) \cup S_OnData(0) \cup S_LenRet(8) \cup S_LenParam(16) \cup S_Callbacks(8) \cup S_Witness(0)
+                [] Which = "witness" -> S_Witness(0)
+                [] Which = "single" -> S_Single(0)
+                [] Which = "strat" -> S_Strat(0)
+                [] Which = "pairsparam" -> S_PairsParam(0)
+                [] Which = "pairsret" -> S_PairsRet(0)
+                [] Which = "null3" -> S_Null3(0)
+                [] Which = "cont3" -> S_Cont3(0)
+                [] Which = "lenparam" -> S_LenParam(1)
+                [] Which = "lenret" -> S_LenRet(1)
+                [] Which = "callbacks" -> S_Callbacks(1)
+                [] Which = "ondata" -> S_OnData(0)
+                [] OTHER -> {}
+NoCases == {}
+\* A.4: the harness replays exactly the cases TLC counted -- the set is evaluated once, exported, then enumerated
+InitOver(S) == /\ IF "C01_CASES_FILE" \in DOMAIN IOEnv THEN ndJsonSerialize(IOEnv.C01_CASES_FILE, SetToSeq(S)) ELSE TRUE
+               /\ case \in S /\ phase = "scan" /\ bad = {}
+MCInit  == InitOver(CasesOf(0))
+MCSpec  == MCInit /\ [][Next]_vars
 =============================================================================
